@@ -23,7 +23,7 @@ tvars == <<l, fails, m>>
 \* monitor state of the call being validated
 Idle == [phase |-> "idle", tid |-> -1, req |-> [rec |-> FALSE, timed |-> FALSE, extra |-> FALSE],
          ctl |-> InitCtl(1, TRUE), Klo |-> 0, Khi |-> 0, beyondOK |-> FALSE,
-         lastK |-> -1, lastTr |-> -1, lastTrR |-> -1, nRows |-> 0, pendLo |-> {}, pendHi |-> {},
+         lastK |-> -1, lastTr |-> -1, lastTrR |-> -1, nRows |-> 0, nRange |-> 0, pendLo |-> {}, pendHi |-> {},
          allFwd |-> TRUE, allAdvLe |-> TRUE, nIter |-> 0]
 
 Missing(f)  == CASE f = "R" -> "C03.MissingRow" [] f = "U" -> "C15.MissingUp" [] f = "D" -> "C15.MissingDown" [] f = "M" -> "C15.MissingMach"
@@ -80,6 +80,7 @@ OnIter(s, r) ==
             !.lastTr = IF r.nrows >= 1 THEN r.tr ELSE s.lastTr,
             !.lastTrR = IF r.nrows >= 1 /\ "R" \in fl /\ r.k >= 0 THEN r.tr ELSE s.lastTrR,
             !.nRows = s.nRows + r.nrows,
+            !.nRange = s.nRange + (IF "R" \in fl THEN r.nrows ELSE 0),
             !.pendLo = Range(r.violLo), !.pendHi = Range(r.violHi),
             !.allFwd = s.allFwd /\ r.fwd, !.allAdvLe = s.allAdvLe /\ r.advLeStep,
             !.nIter = s.nIter + r.rep]
@@ -104,7 +105,9 @@ EndClauses(s, r) ==
      If(c03 /\ s.ctl.nextRec < s.Klo, "C03.LastMultipleMissing") \cup
      \* at most one further multiple, and only if it lies within one integration step beyond the range
      If(c03 /\ s.ctl.nextRec > s.Khi + (IF s.beyondOK THEN 1 ELSE 0), "C03.TooManyBeyond") \cup
-     If(done /\ r.tail # (s.nRows < 2), "C03.TailRow") \cup
+     \* the closing row: appended exactly when fewer than two RANGE rows were recorded (event rows of an extra-data
+     \* request do not count: the plain request of the same shot gets the closing row, so must the extra-data one, C11)
+     If(done /\ r.tail # (s.nRange < 2), "C03.TailRow") \cup
      If(r.nRows # s.nRows + (IF r.tail THEN 1 ELSE 0) + (IF s.phase = "raised" THEN 1 ELSE 0), "Trace.RowCount") \cup
      If(r.nIter # s.nIter, "Trace.IterCount")
 
